@@ -191,9 +191,10 @@ impl<'a> SpannedDiagnosticFormatter<'a> {
                     SpansKind::DuplicationError => {
                         format!("{} occurrence", Self::ordinal(span_num + 1))
                     }
-                    SpansKind::Error => {
-                        unreachable!("Should contain a single span at the site of the error")
-                    }
+                    // An error can point at several places (the parts of an invalid
+                    // `%grmtools` value each have a span of their own): the further ones
+                    // are underlined without a text of their own.
+                    SpansKind::Error => String::new(),
                     _ => "Unrecognized spanskind".to_string(),
                 };
                 out.push_str(&self.prefixed_underline_span_with_text(dots, *span, s, '^'));
